@@ -311,6 +311,30 @@ _BUILTIN_EXC = {n: getattr(builtins, n) for n in dir(builtins)
                 if isinstance(getattr(builtins, n), type) and issubclass(getattr(builtins, n), BaseException)}
 
 
+_LOGGER = None
+
+
+def _inert_logger():
+    """logging.getLogger(...) / logging.debug(...) ... : callable, returns itself, every attribute is itself"""
+    global _LOGGER
+    if _LOGGER is None:
+        from .values import Opaque
+
+        class Inert(Opaque):
+            def m_getattr(self, vm, name):
+                if name in ("DEBUG", "INFO", "WARNING", "ERROR"):
+                    return {"DEBUG": 10, "INFO": 20, "WARNING": 30, "ERROR": 40}[name]
+                return self
+
+            def m_call(self, vm, args, kwargs):
+                return self
+
+            def m_truth(self, vm):
+                return True
+        _LOGGER = Inert("logging")
+    return _LOGGER
+
+
 class Loader:
     def __init__(self, src_root=None):
         self.src_root = src_root or SRC_ROOT
@@ -360,6 +384,11 @@ class Loader:
         if (mod, attr) in (("_weakref", "ref"), ("weakref", "ref")):
             from .builtins_ import BUILTINS
             return BUILTINS["weakref.ref"]
+        if mod == "logging" or mod.startswith("logging."):
+            # logging has no effect the properties talk about: loggers are inert objects
+            v = _inert_logger()
+            self.externals[key] = v
+            return v
         if (mod, attr) == ("copy", "copy"):
             from .builtins_ import BUILTINS
             return BUILTINS["copy"]
